@@ -399,6 +399,27 @@ func runMaintPassCase(seed uint64, k, idx int) {
 	for _, v := range snap1 {
 		left[hx(v.Id[:])+"/"+mpAddrTok(udp(v.IP, v.Port))] = v
 	}
+	// C05: the maintainer writes liveness state only (no reply lists a node in these cases, nothing can be added)
+	shape0, shape1 := map[string]bool{}, map[string]bool{}
+	for _, v := range snap0 {
+		shape0[fmt.Sprintf("%d/%s/%s", v.Bucket, hx(v.Id[:]), mpAddrTok(udp(v.IP, v.Port)))] = true
+	}
+	for _, v := range snap1 {
+		shape1[fmt.Sprintf("%d/%s/%s", v.Bucket, hx(v.Id[:]), mpAddrTok(udp(v.IP, v.Port)))] = true
+	}
+	for e := range shape0 {
+		if !shape1[e] {
+			oracle("C05", "entry-moved-or-removed-by-table-maintenance", "case=%d pass k=%d entry(bucket/id/addr)=%s", idx, k, e)
+		}
+	}
+	for e := range shape1 {
+		if !shape0[e] {
+			oracle("C05", "entry-added-by-table-maintenance-on-a-network-listing-no-nodes", "case=%d pass k=%d entry(bucket/id/addr)=%s", idx, k, e)
+		}
+	}
+	if ended && (len(snap1) != s.NumNodes() || len(snap1) != s.Stats().Nodes) {
+		oracle("C05", "node-count-disagrees-with-table:after-maintenance", "case=%d pass k=%d table=%d NumNodes=%d Stats.Nodes=%d", idx, k, len(snap1), s.NumNodes(), s.Stats().Nodes)
+	}
 	for key := range good0 {
 		v, ok := left[key]
 		if !ok {
